@@ -237,7 +237,7 @@ func scenarios(tier string) ([]Scenario, map[string]int) {
 	// 1b (thorough). the short scripts again with the origin's k bytes cut into two writes at every offset j < k
 	if tier == "thorough" {
 		for _, sc := range scripts(tier) {
-			if len(sc.wire) > 120 {
+			if len(sc.wire) > 260 {
 				continue
 			}
 			for _, reused := range []bool{false, true} {
@@ -963,7 +963,7 @@ func main() {
 		return
 	}
 	rep := lib.NewReport("C03", "fault_enumeration")
-	agg := h1harness.RunAll(16, len(list), lib.Root+"/.build/c03/work", func(idx int, stderr string) (string, string, interface{}) {
+	agg := h1harness.RunAll(16, len(list), fmt.Sprintf("%s/.build/c03/work-%d", lib.Root, os.Getpid()), func(idx int, stderr string) (string, string, interface{}) {
 		s := &list[idx]
 		cls := "origin_fault"
 		if s.Kind == "client" {
